@@ -68,6 +68,7 @@ def _run_job(args):
     res = {"label": label, "func": func, "params": params, "failures": [], "known": [], "unsupported": [],
            "witnesses": {}, "samples": [], "stats": {}, "error": None}
     E = Engine(regions=regions_for(known, label), time_budget=budget)
+    E.xcheck_budget = int(os.environ.get("VERIF_XCHECK", "0") or 0)
     del core.FP_LOG[:]
 
     def on_alarm(sig, frm):
@@ -189,6 +190,8 @@ def main(modname, argv=None):
 
 
 def _main(mod, modname, prop, tier, seed, only, workdir, t0, no_canaries):
+    if tier == "thorough" and "VERIF_XCHECK" not in os.environ:
+        os.environ["VERIF_XCHECK"] = "6"        # per job: re-decide up to 6 obligation queries with cvc5
     known = load_known(prop)
     workers = int(os.environ.get("VERIF_WORKERS", "0") or 0) or min(16, os.cpu_count() or 4)
     budget = float(os.environ.get("VERIF_JOB_BUDGET", "0") or 0) or (600 if tier == "quick" else 3000)
@@ -328,6 +331,8 @@ def _main(mod, modname, prop, tier, seed, only, workdir, t0, no_canaries):
                       "inconclusive": len(r["unsupported"]) + (1 if r.get("error") else 0)} for r in results],
             "obligations_checked": obl,
             "solver_seconds": round(sum(r["stats"].get("solver_s", 0) for r in results), 2),
+            "cross_check_cvc5": {k: sum(r["stats"].get("cross_check_cvc5", {}).get(k, 0) for r in results)
+                                 for k in ("agree", "disagree", "inconclusive", "unavailable", "seconds")},
             "witnesses": got_w,
             "model_validation_runs": val_runs,
             "replays": replays,
